@@ -296,7 +296,7 @@ class SVal(Sym):
 
     def _d(self, why):
         th = self.heap.th
-        cur().oblige('call-pre[%s: value is a dict]' % why, th.Val.is_vref(self.t))
+        _need('call-pre[%s: value is a dict]' % why, th.Val.is_vref(self.t))
         return SDict(self.heap, th.Val.ref_of(self.t))
 
     def __contains__(self, k): return self._d('in').__contains__(k)
@@ -354,7 +354,7 @@ class SDict(Sym):
         return bool(SBool(self.has(k)))
 
     def __getitem__(self, k):
-        cur().oblige('call-pre[dict key present: %s]' % _kname(k), self.has(k))
+        _need('call-pre[dict key present: %s]' % _kname(k), self.has(k))
         return SVal(self.heap, self.value(k))
 
     def __setitem__(self, k, v):
@@ -367,7 +367,7 @@ class SDict(Sym):
                 self.heap.delete(self.ref, self._k(k))
                 return v
             return default[0]
-        cur().oblige('call-pre[dict.pop key present: %s]' % _kname(k), self.has(k))
+        _need('call-pre[dict.pop key present: %s]' % _kname(k), self.has(k))
         v = SVal(self.heap, self.value(k))
         self.heap.delete(self.ref, self._k(k))
         return v
@@ -404,6 +404,13 @@ class SDict(Sym):
 
     def __repr__(self):
         return 'SDict(%s)' % z3.simplify(self.ref)
+
+
+def _need(kind, fact):
+    """a library precondition whose violation raises (KeyError, IndexError, ...): obliged, and execution continues under it"""
+    vc = cur()
+    vc.oblige(kind, fact)
+    vc.assume(fact)
 
 
 def _kname(k):
@@ -517,7 +524,7 @@ class SParam(Sym):
 
     def sort_key(self):
         th = theory()
-        cur().oblige('call-pre[ordering params: positional (int)]', th.Param.is_ppos(self.t))
+        _need('call-pre[ordering params: positional (int)]', th.Param.is_ppos(self.t))
         return th.Param.pos_of(self.t)
 
     def _vc_ite(self, c, other):
@@ -610,7 +617,7 @@ class SNodeSet(Sym):
 
     def remove(self, x):
         x = _name_t(x)
-        cur().oblige('call-pre[set.remove: element present]', self.mem(x))
+        _need('call-pre[set.remove: element present]', self.mem(x))
         old = self.mem
         self.mem = lambda y: z3.And(y != x, old(y))
 
@@ -684,7 +691,7 @@ class SList(Sym):
             raise OutOfSubset('slice of a symbolic list')
         i = _zi(i)
         i = z3.If(i < 0, i + self.n, i)
-        cur().oblige('call-pre[list index in range]', z3.And(i >= 0, i < self.n))
+        _need('call-pre[list index in range]', z3.And(i >= 0, i < self.n))
         return self.elt(i)
 
     def append(self, x):
@@ -896,7 +903,7 @@ class SDiGraph(Sym):
 
     def node_data(self, n, why='G.nodes[n]'):
         n = _name_t(n)
-        cur().oblige('call-pre[%s: node present]' % why, self.node(n))
+        _need('call-pre[%s: node present]' % why, self.node(n))
         return SDict(self.heap, self.nattr(n))
 
     @property
@@ -930,7 +937,7 @@ class SDiGraph(Sym):
 
     def __getitem__(self, u):
         u = _name_t(u)
-        cur().oblige('call-pre[G[u]: node present]', self.node(u))
+        _need('call-pre[G[u]: node present]', self.node(u))
         return _Adj(self, u)
 
     @property
@@ -1087,6 +1094,7 @@ def DiGraph(G=None, **attr):
     h.has = lambda r, k: z3.If(fresh_r(r), has(nattr(owner(r)), k), has(r, k))
     h.val = lambda r, k: z3.If(fresh_r(r), val(nattr(owner(r)), k), val(r, k))
     K.nattr = lambda x: z3.If(node(x), newref(x), nattr(x))
+    vc.libcall('nx.DiGraph', dict(src=G, copy=K, heap=h.snap()))       # anchor for contracts (state right after the library copy)
     return K
 
 
@@ -1203,7 +1211,7 @@ class EdgeView:
     """G.edges / G.out_edges / G.in_edges [(nbunch=one node, data=True|False)]"""
 
     def __init__(self, G, direction, n=None, data=False):
-        self.G, self.dir, self.n, self.data = G, direction, n, data
+        self.G, self.dir, self.n, self.data, self.missing = G, direction, n, data, False
 
     def __call__(self, nbunch=None, data=False):
         if data not in (False, True):
@@ -1212,12 +1220,14 @@ class EdgeView:
         if nbunch is not None:
             n = _name_t(nbunch)
             if not cur().branch(self.G.node(n)):      # nbunch not in the graph: networkx yields nothing for a single missing node
-                return EdgeView(self.G, self.dir, 'missing', data)
+                v = EdgeView(self.G, self.dir, n, data)
+                v.missing = True
+                return v
         return EdgeView(self.G, self.dir, n, data)
 
     def _mem(self, st=None):
         st = st or self.G
-        if isinstance(self.n, str):
+        if self.missing:
             return lambda u, v: z3.BoolVal(False)
         if self.n is None:
             return lambda u, v: st.edge(u, v)
@@ -1238,11 +1248,13 @@ class EdgeView:
     def _vc_iter(self):
         from .engine import SetIter
         G, th = self.G, self.G.th
-        if self.n is None or isinstance(self.n, str):
+        if self.n is None:
             E = th.Edge
             mem = self._mem()
             return SetIter(E, lambda q: mem(E.src(q), E.dst(q)), lambda q: self._tuple(E.src(q), E.dst(q)))
         n = self.n
+        if self.missing:
+            return SetIter(th.Node, lambda q: z3.BoolVal(False), lambda q: self._tuple(n, q))
         if self.dir == 'out':
             return SetIter(th.Node, lambda q: G.edge(n, q), lambda q: self._tuple(n, q))
         return SetIter(th.Node, lambda q: G.edge(q, n), lambda q: self._tuple(q, n))
@@ -1257,7 +1269,7 @@ class _Adj:
 
     def __getitem__(self, v):
         v = _name_t(v)
-        cur().oblige('call-pre[G[u][v]: edge present]', self.G.edge(self.u, v))
+        _need('call-pre[G[u][v]: edge present]', self.G.edge(self.u, v))
         return SEdgeData(self.G.param(self.u, v))
 
     def __contains__(self, v):
@@ -1302,7 +1314,7 @@ class _Degree:
 
     def __getitem__(self, n):
         n = _name_t(n)
-        cur().oblige('call-pre[G.degree[n]: node present]', self.G.node(n))
+        _need('call-pre[G.degree[n]: node present]', self.G.node(n))
         return self._value(n)
 
 
